@@ -821,6 +821,15 @@ class Sym:
                         if s.endswith("div_euclid"):
                             return q - Poly.sym(nmf)
                         return r + Poly.sym(nmf) * Poly.const(int(b.const_value()))
+            if s.endswith("::abs_diff") and s.startswith("<impl ") and len(t[2]) == 2:
+                # |a - b| = (a - b) * (2 * [a >= b] - 1): the bracket is a 0/1 comparison flag (case-expanded like the
+                # `if a > b { a - b } else { b - a }` form)
+                a, b = self.poly(t[2][0]), self.poly(t[2][1])
+                if a is not None and b is not None:
+                    nmf = "b2i(%s)" % cmp_to_rel("Ge", a, b)[1]
+                    self.sym_box[nmf] = (0, 1)
+                    self.b2i[nmf] = ("Ge", a, b)
+                    return (a - b) * (Poly.sym(nmf) * Poly.const(2) - Poly.const(1))
             if s.endswith("::wrapping_sub") and len(t[2]) == 2:
                 a, b = self.poly(t[2][0]), self.poly(t[2][1])
                 if a is not None and b is not None:
